@@ -621,6 +621,25 @@ func (g *c19gen) context(format int, chained bool) (string, gtab.Subtable) {
 			return strings.Join(parts, " "), out
 		}
 		covGids := g.distinct(1 + g.r.IntN(4))
+		covText := func() string {
+			if g.r.IntN(3) != 0 {
+				return g.list(covGids)
+			}
+			// the same set written in increasing order with glyphs named twice
+			// (overlapping ranges like A-C C-E): a coverage list is a set
+			txt := append([]glyph.ID{}, covGids...)
+			sort.Slice(txt, func(i, j int) bool { return txt[i] < txt[j] })
+			var out []glyph.ID
+			for _, x := range txt {
+				out = append(out, x)
+				if g.r.IntN(2) == 0 {
+					out = append(out, x)
+				}
+			}
+			out = append(out, txt[len(txt)-1])
+			g.use("coverage-list-sorted-with-duplicates")
+			return g.list(out)
+		}
 		if !chained {
 			defs, cd, names := mkClasses("class", "c")
 			rules := make([][]*gtab.ClassSeqRule, len(names)+1)
@@ -631,7 +650,7 @@ func (g *c19gen) context(format int, chained bool) (string, gtab.Subtable) {
 				rules[in[0]] = append(rules[in[0]], &gtab.ClassSeqRule{Input: in[1:], Actions: act})
 				parts = append(parts, t+g.arrow()+at)
 			}
-			return defs + "/" + g.list(covGids) + "/ " + strings.Join(parts, g.sepComma()),
+			return defs + "/" + covText() + "/ " + strings.Join(parts, g.sepComma()),
 				&gtab.SeqContext2{Cov: c19cov(covGids), Input: cd, Rules: rules}
 		}
 		d1, cb, nb := mkClasses("backtrackclass", "b")
@@ -649,7 +668,7 @@ func (g *c19gen) context(format int, chained bool) (string, gtab.Subtable) {
 			rules[in[0]] = append(rules[in[0]], &gtab.ChainedClassSeqRule{Backtrack: c19rev(bt), Input: in[1:], Lookahead: la, Actions: act})
 			parts = append(parts, tb+" | "+ti+" | "+tl+g.arrow()+at)
 		}
-		return strings.Join(defs, "") + "/" + g.list(covGids) + "/ " + strings.Join(parts, g.sepComma()),
+		return strings.Join(defs, "") + "/" + covText() + "/ " + strings.Join(parts, g.sepComma()),
 			&gtab.ChainedSeqContext2{Cov: c19cov(covGids), Backtrack: cb, Input: ci, Lookahead: cl, Rules: rules}
 	default:
 		sets := func(n int) (string, []coverage.Set) {
